@@ -200,7 +200,7 @@ def get_value_type_by_c_type(type_id: str) -> ValueType:
     elif type_id == "void":
         return ValueType(False, 32, VTGroup.VOID)
     elif type_id == "bool":
-        return ValueType(False, 1, VTGroup.PURE & VTGroup.BOOL)
+        return ValueType(False, 1, VTGroup.PURE | VTGroup.BOOL)
 
     if type_id.startswith("size"):
         type_match = re.search(r"size(?P<width>\d+)(?P<sign>[us])_t", type_id)
